@@ -337,11 +337,11 @@ def combos(tier):
         (("crawlA", "pages1"), U, U),
         (("crawlC", "plinks2"), U, U),
         (("crawlC", "pages2"), U, U),
-        (("crawlA", "most1"), 4, U),
+        (("crawlA", "most1"), 4, 6),
         (("rule", "pages1"), U, U),
         (("rule", "rule2"), U, U),
-        (("crawlB", "plinks1"), 3, U),
-        (("rule", "plinks1"), 3, U),
+        (("crawlB", "plinks1"), 3, 5),
+        (("rule", "plinks1"), 3, 5),
         (("crawlA", "net"), 3, 5),
         (("crawlB", "netin"), 3, 5),
         (("rule", "net"), 3, 5),
@@ -350,7 +350,7 @@ def combos(tier):
         # traversals / two link-list walks suspended at the same time)
         (("crawlA", "outl1"), 3, 5),
         (("crawlB", "inl1"), 3, 5),
-        (("crawlC", "outl2"), 3, U),
+        (("crawlC", "outl2"), 3, 6),
         (("crawlA", "child1"), 3, 5),
         (("rule", "child1"), 3, 5),
         (("crawlA", "netslow"), 2, 4),
@@ -396,7 +396,7 @@ def combos(tier):
         (("crawlD", "rule", "plinks1i"), 2, 3),
         (("crawlA", "rule", "plinks1i"), 2, 3),
         (("crawlB", "rule", "plinks1i"), 2, 3),
-        (("crawlE", "rule2", "plinks1i"), 3, 4),
+        (("crawlE", "rule2", "plinks1i"), 3, 3),
         (("crawlE", "rule2", "plinks1"), 2, 3),
         (("crawlD", "rule", "most1"), 2, 3),
         (("crawlA", "linksX", "plinks1"), 2, 3),
